@@ -59,6 +59,9 @@ def run(pid='C15'):
             # text: tokens -> grammar -> operands
             try:
                 toks = asmcheck.string_tokens(f_desc); mn, ops = asmcheck.parse_operand_text(toks)
+            except asmcheck.TextDefect as e:
+                # structural: replayed natively with a concrete instance of this opcode (registers 1/2, offset 4, immediate 16)
+                cands.append(dict(role=f'disasm/{name}/round-trip-differs:text-form', detail=f'{name}: {e}', model=dict(opc=opc, regbyte=0x21, off=4, imm=16, next_imm=0, nopc=0), friendly=True, opc=opc)); continue
             except mirsym.Unsupported as e:
                 pr.out['errors'].append(f'{name}: text not decodable: {e}'); continue
             exp = asmcheck.expected_operands(opc, P)
